@@ -104,6 +104,11 @@ M = [
   "        0.9133480844001980,", "        0.9133840844001980,"),
  ("c18_common_tags_order", "C18", "icc-common-tags", "crates/jxl-color/src/icc/decode.rs",
   "b\"gTRC\", b\"bTRC\", b\"kTRC\", b\"chad\"", "b\"bTRC\", b\"gTRC\", b\"kTRC\", b\"chad\""),
+ ("c18_lumi_not_fixed_size", "C18", "implicit-size-by-name", "crates/jxl-color/src/icc/decode.rs",
+  "b\"rXYZ\" | b\"gXYZ\" | b\"bXYZ\" | b\"kXYZ\" | b\"wtpt\" | b\"bkpt\" | b\"lumi\" => 20,", "b\"rXYZ\" | b\"gXYZ\" | b\"bXYZ\" | b\"kXYZ\" | b\"wtpt\" | b\"bkpt\" => 20,"),
+ ("c07_epf_sigma_conditional_store", "C07", "stale-scratch", "crates/jxl-render/src/filter/epf.rs",
+  "                *sigma = if let Some(grid) = sigma_grid_map[sigma_grid_idx] {\n                    let width = grid.width();\n                    grid.buf()[sigma_inner_y * width + sigma_inner_x]\n                } else {\n                    epf_params.sigma_for_modular\n                };",
+  "                if let Some(grid) = sigma_grid_map[sigma_grid_idx] {\n                    let width = grid.width();\n                    *sigma = grid.buf()[sigma_inner_y * width + sigma_inner_x];\n                }"),
  ("c09_eof_exit_without_carry", "C09", "return-without-carry", "crates/jxl-oxide/src/lib.rs",
   "                Err(e) if e.unexpected_eof() => {\n                    self.buffer = buf.to_vec();\n                    return Ok(());\n                }\n                Err(e) => {\n                    return Err(e.into());\n                }\n            };\n            let frame_index = frame.index();",
   "                Err(e) if e.unexpected_eof() => {\n                    return Ok(());\n                }\n                Err(e) => {\n                    return Err(e.into());\n                }\n            };\n            let frame_index = frame.index();"),
